@@ -1130,6 +1130,8 @@ func ruleTabKeysig(c *Ctx) {
 
 	// slicing bounds of newScaleAccidentals: flats take the first n, sharps the last n
 	c.checkScaleAccidentalSlices()
+	// and, for every signature size -7..7, the letters it hands to the set constructor (decided by folding)
+	c.checkScaleAccidentalSets()
 
 	// tonic -> index table in newRawScaleNotes, by folding the switch for every letter
 	c.checkRawScaleIndex()
@@ -1355,3 +1357,73 @@ func (c *Ctx) foldSwitchIndex(fn *ssa.Function, arg int64) (int64, error) {
 }
 
 var _ = syntax.Perl
+
+
+// checkScaleAccidentalSets folds op.newScaleAccidentals(n) for n = -7..7 and compares the letters passed to the set
+// constructor and the isSharp flag with the circle of fifths: n flats = the first -n letters of B E A D G C F,
+// n sharps = the first n letters of F C G D A E B. Anything executed before the sign test (a clamp, a remap) is covered.
+func (c *Ctx) checkScaleAccidentalSets() {
+	fn := c.fn("op", "newScaleAccidentals")
+	if fn == nil {
+		return
+	}
+	flats := orderOfFlats()
+	sharps := make([]string, len(flats))
+	for i := range flats {
+		sharps[i] = flats[len(flats)-1-i]
+	}
+	type res struct {
+		letters []string
+		sharp   bool
+	}
+	results := map[int]res{}
+	for n := -7; n <= 7; n++ {
+		f := c.newFolder()
+		var letters []string
+		seen, failed := false, false
+		f.hook = func(in ssa.Instruction, val func(ssa.Value) fval) bool {
+			call, ok := in.(*ssa.Call)
+			if !ok || calleeName(&call.Call) != "util.NewSet" {
+				return false
+			}
+			seen = true
+			if len(call.Call.Args) == 1 {
+				a := val(call.Call.Args[0])
+				if a.isNil {
+					return false
+				}
+				l, ok := a.cv.(*ListV)
+				if !ok {
+					failed = true
+					return false
+				}
+				for _, e := range l.Elems {
+					letters = append(letters, e.vstr())
+				}
+			}
+			return false
+		}
+		r, err := f.foldCall(fn, []fval{{k: constant.MakeInt64(int64(n)), t: types.Typ[types.Int]}})
+		if err != nil || !seen || failed || r.fields == nil || r.fields["isSharp"].k == nil {
+			return // does not fold: the syntactic check above stands alone
+		}
+		results[n] = res{letters, constant.BoolVal(r.fields["isSharp"].k)}
+	}
+	for n := -7; n <= 7; n++ {
+		c.site(1)
+		var want []string
+		switch {
+		case n < 0:
+			want = flats[:-n]
+		case n > 0:
+			want = sharps[:n]
+		}
+		got := append([]string{}, results[n].letters...)
+		ws := append([]string{}, want...)
+		sort.Strings(got)
+		sort.Strings(ws)
+		key := fmt.Sprintf("op.newScaleAccidentals|set|%+d", n)
+		good := strings.Join(got, "") == strings.Join(ws, "") && results[n].sharp == (n > 0)
+		c.check(good, key, c.pos(fn.Pos()), fname(fn), fmt.Sprintf("signature %+d alters %v", n, want), fmt.Sprintf("a signature of %+d alters %v (sharp=%v), want %v (sharp=%v): keys with that signature get a wrong scale", n, results[n].letters, results[n].sharp, want, n > 0))
+	}
+}
